@@ -89,6 +89,8 @@ func mkSchedBody(c *lib.Ctx, threads []string, pre int) func() vsync.Body {
 		var reads []string
 		var readErr string
 		nUpd, reset, closed := 0, false, false
+		// flushEnded: an iteration of the periodic flusher told its loop to end.
+		flushEnded := false
 		var fs []func()
 		for _, t := range threads {
 			switch t {
@@ -105,7 +107,9 @@ func mkSchedBody(c *lib.Ctx, threads []string, pre int) func() vsync.Body {
 			case "F":
 				fs = append(fs, func() {
 					x.hour.Add(1)
-					stats.VerifFlush(x.s)
+					if !stats.VerifFlush(x.s) {
+						flushEnded = true
+					}
 				})
 			case "G":
 				fs = append(fs, func() {
@@ -132,6 +136,11 @@ func mkSchedBody(c *lib.Ctx, threads []string, pre int) func() vsync.Body {
 					// (HTTP 500, no data); that is unavailability, not a wrong
 					// total, and is accepted only then.
 					return "read-failed: " + readErr
+				}
+				if flushEnded && !closed {
+					// The loop of periodicFlush ends for good when an iteration
+					// says so: no later hour rollover would be honoured.
+					return "periodic-flush-ends: an iteration of the hourly flusher ended its loop although the statistics were not shut down"
 				}
 				for _, b := range reads {
 					var r schedStatsJSON
